@@ -108,11 +108,16 @@ Definition left_right_switch (lists : bool) (l r : list N) : list N * list N :=
   if (if lists then lex_ge l r else all_ge l r) then (r, l) else (l, r).
 (* np.any(left > right): bounds that cross at some probability level are rejected *)
 Definition crosses (l r : list N) : bool := existsb (fun p => snd p <? fst p) (combine l r).
-Definition mk_staircase_gen (lists : bool) (l r : list N) : res pbox :=
+Definition mk_staircase_core (lists : bool) (l r : list N) : res pbox :=
   let '(l, r) := left_right_switch lists l r in
   let l := bound_steps_check l in let r := bound_steps_check r in
   if negb (Nat.eqb (length l) (length r)) then Raise AssertionErr
   else if is_increasing l && is_increasing r then (if crosses l r then Raise ValueErr else Ok (l, r)) else Raise NotIncreasing.
+(* np.all(np.isfinite(bound)): x - x = 0 holds for every finite x and fails for an infinity (inf - inf is nan); over the reals it always holds *)
+Definition is_finite_n (x : N) : bool := neqb N (x - x) nzero.
+Definition all_finite (l : list N) : bool := forallb is_finite_n l.
+Definition mk_staircase_gen (lists : bool) (l r : list N) : res pbox :=
+  rbind (mk_staircase_core lists l r) (fun p => if all_finite (fst p) && all_finite (snd p) then Ok p else Raise ValueErr).
 Definition mk_staircase := mk_staircase_gen false.
 Definition mk_staircase_lists := mk_staircase_gen true.
 
